@@ -42,10 +42,10 @@ POOL = [
     ("builtin", "(+)"), ("closure", "(\\x -> x)"), ("type", "int"), ("instance", "Foo(1, [2])"),
 ]
 RISKY = {"i64max", "i64min", "bigint", "inf", "infstream"}
-QUICK = ["null", "int0", "intneg", "int2", "bigrep2", "i64max", "i64min", "rational", "nan", "str", "uchar", "emptylist", "list", "dict", "dictfn", "vector", "badutf8",
+QUICK = ["null", "int0", "intneg", "bigrep2", "i64max", "i64min", "rational", "nan", "str", "uchar", "emptylist", "list", "dict", "dictfn", "vector", "badutf8",
          "stream", "infstream", "closure"]
 SUB3 = ["null", "int0", "intneg", "int2", "float", "str", "uchar", "emptylist", "list", "dict", "stream", "closure", "i64min"]
-SUB3_QUICK = ["int0", "intneg", "str", "list", "closure", "null"]
+SUB3_QUICK = ["int0", "str", "list", "closure", "null"]
 # a lazily built result is measured (len, truthiness, last index, slices) and advanced (up to 40 elements) inside the try: a stream that can only fail when consumed has not "ended with a value"
 PRE = ["struct Foo (a, b)", "force_ := \\v -> (if (v is stream) (try len(v) catch _ -> 0; try (not v) catch _ -> 0; try v[1:2] catch _ -> 0; try (if (len(v) < 1000) [v[-1], v[-2:]]) catch _ -> 0; list(v take 40)) else v)"] + ["p_%s := %s" % (n, s) for n, s in POOL]
 
@@ -111,6 +111,14 @@ AFT_FAILS = [
 ]
 
 
+# ---- regular-expression builtins: every (function form, pattern, subject) of three small pools
+RE_PATTERNS = ["(a)?b", "(a)|(b)", "a*", "(a)(b)?", "()", "(?:a)(b)?", "[", "(", "a{2,1}", "\\\\1", "(?P<n>a)?b", "", "é?", ".", "(a)?(b)?(c)?", "\\\\b", "^$"]
+RE_SUBJECTS = ["", "a", "b", "ab", "xb", "héb", "aaa"]
+RE_FORMS = ['search("{S}", "{P}")', 'search_all("{S}", "{P}")', 'replace("{S}", "{P}", "x")', 'replace("{S}", "{P}", \\m -> str(m))',
+            'replace("{S}", "{P}", \\m -> m[1])', '"{S}" split_re "{P}"', '"{S}" split_re "{P}" by 2', '"{S}" search "{P}" then len',
+            'for (m <- search_all("{S}", "{P}")) yield m[-1]', 'replace("{S}", "{P}", "$1$2")']
+
+
 def globals_list():
     e = E.Engine()
     try:
@@ -152,7 +160,7 @@ def cases(tier, shard, nshards):
                 continue
             risky = any(a in RISKY for a in t)
             body = "force_(%s(%s))" % (f, ", ".join("p_" + a for a in t))
-            opts = {"step_ms": 250 if risky else 3000, "fuel": 20000, "compact": True, "hang_retry": not risky}
+            opts = {"step_ms": 200 if risky else 3000, "fuel": 20000, "compact": True, "hang_retry": not risky}
             yield Case(wrap(body), {"k": "call", "fn": f, "args": list(t), "risky": risky}, pre=PRE, opts=opts)
     for f in AFT_FAILS:
         cnt += 1
@@ -160,6 +168,14 @@ def cases(tier, shard, nshards):
             continue
         yield Case([AFT_SETUP + "try (%s) catch _ -> null; %s" % (f, AFT_OBSERVE), AFT_SETUP + AFT_OBSERVE, AFT_SETUP + "(%s); 0" % f],
                    {"k": "aftermath", "fail": f, "fn": "aftermath", "args": [], "risky": False}, iso=True, opts={"step_ms": 3000, "fuel": 20000, "compact": True})
+    for form in RE_FORMS:
+        for pat in RE_PATTERNS:
+            for subj in RE_SUBJECTS:
+                cnt += 1
+                if cnt % nshards != shard:
+                    continue
+                body = form.replace("{S}", subj).replace("{P}", pat)
+                yield Case(wrap(body), {"k": "stmt", "fn": "regex", "args": [pat, subj], "risky": False}, pre=PRE, opts={"step_ms": 3000, "fuel": 20000, "compact": True})
     tpool = QUICK if tier == "quick" else [n for n in names if n not in ("negzero", "emptybytes", "defdict", "emptystream", "builtin")]
     t3 = SUB3_QUICK + ["i64max", "dict", "uchar", "ustr"] if tier == "quick" else SUB3 + ["i64max", "bigint", "vector", "badutf8", "ustr"]
     for (name, tpl, holes) in TEMPLATES:
@@ -171,7 +187,7 @@ def cases(tier, shard, nshards):
             fill = dict(zip("ABC", ["p_" + a for a in t]))
             body = tpl.format(**fill)
             risky = any(a in RISKY for a in t)
-            opts = {"step_ms": 250 if risky else 3000, "fuel": 20000, "compact": True, "hang_retry": not risky}
+            opts = {"step_ms": 200 if risky else 3000, "fuel": 20000, "compact": True, "hang_retry": not risky}
             yield Case(wrap(body), {"k": "stmt", "fn": name, "args": list(t), "risky": risky}, pre=PRE, opts=opts)
 
 
